@@ -19,7 +19,7 @@ CONSTANTS
   JitterChoices = {99999}
   Deviations = {"F12", "F14"}
   MaxApps = 0
-  MaxSucc = 2
+  MaxSucc = 1
   CapX = {}
   CapY = {}
   Depth = 1000
